@@ -55,6 +55,7 @@ var SessionIDs = map[string]string{
 	"s1": "11111111-1111-1111-1111-111111111111",
 	"s2": "22222222-2222-2222-2222-222222222222",
 	"s3": "33333333-3333-3333-3333-333333333333",
+	"s4": "44444444-4444-4444-4444-444444444444",
 }
 
 func kvCur(w *world.World, key string) uint64 {
